@@ -638,8 +638,8 @@ pub fn build_property() -> Property {
             "not generated (verdict unspecified): the same chip id twice in a lane, ALPIDE bytes outside the grammar, a fatal lane announcing twice".into(),
         ],
         phases: vec![
-            Phase { name: "inproc_frames", kind: PhaseKind::Gen { cases: (12000, 250000), tape_len: 600 + 6000, f: Box::new(inproc_case) }, threads: 16 },
-            Phase { name: "cli_frames", kind: PhaseKind::Gen { cases: (500, 5000), tape_len: 3600, f: Box::new(cli_case) }, threads: 16 },
+            Phase { name: "inproc_frames", kind: PhaseKind::Gen { cases: (60000, 800000), tape_len: 600 + 6000, f: Box::new(inproc_case) }, threads: 16 },
+            Phase { name: "cli_frames", kind: PhaseKind::Gen { cases: (3000, 20000), tape_len: 3600, f: Box::new(cli_case) }, threads: 16 },
         ],
     }
 }
